@@ -93,6 +93,7 @@ SCEN_DESC = {
     'rwcr': 'RwLock with a cancelled *reader* (beside other readers), then exclusion re-checked with fresh readers and writers',
     'relock': 'notified condvar waiters re-locking the mutex while cancelled around the holder\'s unlock',
     'iocan': 'cancel of coroutines blocked in socket read/accept/connect',
+    'iocant': 'cancel of a *timed* recv on a shared socket that lives on: later timed recvs must neither fail early nor lose their datagram',
     'hssem': 'no-hook stress: semaphore hand-over handshake',
     'sem': 'waiters (wait / wait_timeout / try_wait) vs a poster: prefix condition successes <= init + posts at every point, final value',
     'semlock': 'semaphore(1|2) used as a lock by 3-4 parties: occupancy never above init',
